@@ -221,6 +221,8 @@ struct Stmt {
 
 struct Obs {
     http: bool,
+    /// routed to execute_mut (everything the generator produces except the plain read)
+    write: bool,
     q: String,
     delta: Vec<Change>,
     returned: Vec<Ref>,
@@ -291,7 +293,8 @@ fn play(rt: &tokio::runtime::Runtime, use_http: bool, mut next: impl FnMut(&Dump
             let delta = diff(&before, &after);
             if ok {
                 let cls = if delta.is_empty() { 0 } else { st.cls };
-                obs.push(Obs { http: st.http, q: st.q, delta, returned, cls });
+                let write = !st.q.starts_with("MATCH (n) RETURN");
+                obs.push(Obs { http: st.http, write, q: st.q, delta, returned, cls });
             } else if !delta.is_empty() {
                 errors.push(format!("refused statement changed the store: {}", st.q));
             }
@@ -331,7 +334,7 @@ fn reference(obs: &[Obs]) -> Dump {
                 }
             }
         }
-        if !o.http {
+        if !o.http && o.write {
             for r in &o.returned {
                 match r {
                     Ref::Node(i) => {
@@ -596,8 +599,9 @@ fn run_case(out: &mut Out, rt: &tokio::runtime::Runtime, seed: u64, case_no: u64
     let g_case = format!(
         "({}, {}, {})",
         g_list(o.obs.iter().map(|s| format!(
-            "({{| s_chan := {}; s_delta := {}; s_returned := {} |}}, {})",
+            "({{| s_chan := {}; s_write := {}; s_delta := {}; s_returned := {} |}}, {})",
             if s.http { "Http" } else { "Resp" },
+            g_bool(s.write),
             g_list(s.delta.iter().map(g_change)),
             g_list(s.returned.iter().map(|r| match r {
                 Ref::Node(i) => format!("RNode {}", i),
@@ -640,7 +644,7 @@ fn replay_witnesses(out: &mut Out, rt: &tokio::runtime::Runtime) {
 fn main() {
     let args = parse_args();
     let rt = tokio::runtime::Builder::new_multi_thread().worker_threads(2).enable_all().build().unwrap();
-    let mut out = Out::new(&args, "From Verif Require Import ServerPersist.", "ServerPersist.case", "ServerPersist.check_case", if args.thorough { 150 } else { 40 });
+    let mut out = Out::new(&args, "From Verif Require Import ServerPersist.", "ServerPersist.case", "ServerPersist.check_case", if args.thorough { 75 } else { 20 });
     out.rule = "histories of 2-8 acknowledged statements on an empty server with persistence: CREATE (node, path, several nodes, \
                 UNWIND), MATCH..SET / REMOVE (properties, labels), MATCH..CREATE relationship, MERGE [ON CREATE / ON MATCH SET], \
                 each RETURNing every entity it created or changed, plus reads; 30% of the histories stay like that, the others \
@@ -656,7 +660,7 @@ fn main() {
             .to_string(),
     );
     replay_witnesses(&mut out, &rt);
-    let n = if args.thorough { 3000 } else { 320 };
+    let n = if args.thorough { 1200 } else { 160 };
     for c in 0..n {
         run_case(&mut out, &rt, args.seed, c);
     }
